@@ -27,10 +27,36 @@ from .qeval import ONE, ZERO, Q
 
 SPEC = core.SPEC / "features"
 REFUSALS = ("ValueError", "NotImplementedError", "ModelError", "ModelSyntaxError")
-KINDS = ["addcov", "rmcov", "allometry", "addiiv", "rmiiv", "addiov", "rmiov", "transform", "seterr", "rmerr",
+KINDS = ["reread", "addcov", "rmcov", "allometry", "addiiv", "rmiiv", "addiov", "rmiov", "transform", "seterr", "rmerr",
          "power", "iivruv", "timevar", "weighted", "abs", "transit"]
 
 _MODELS = {}
+
+# pheno written by hand with the covariate effect on CL inside an exponential and no eta on CL: an exponential eta
+# added to CL shares the exponential with the covariate term (remove_iiv must take out the eta only)
+PHENOEXP = """$PROBLEM PHENOBARB, COVARIATE CODED INSIDE EXP
+$DATA @DATA@ IGNORE=@
+$INPUT ID TIME AMT WGT APGR DV FA1 FA2
+$SUBROUTINE ADVAN1 TRANS2
+$PK
+TVCL = THETA(1)
+TVV = THETA(2)*WGT
+IF(APGR.LT.5) TVV = TVV*(1 + THETA(3))
+CL = TVCL*EXP(THETA(4)*(WGT - 1.3))
+V = TVV*EXP(ETA(1))
+S1 = V
+
+$ERROR
+Y = F + F*EPS(1)
+
+$THETA  (0,0.00469307) ; POP_CL
+$THETA  (0,1.00916) ; POP_VC
+$THETA  (-.99,.1) ; COVAPGR
+$THETA  (-5,0.3,5) ; CLWGT_EXP
+$OMEGA  0.031128 ; IIV_VC
+$SIGMA  0.0130865 ; SIGMA
+$ESTIMATION METHOD=1 INTERACTION MAXEVALS=99999
+"""
 
 
 def start_model(name):
@@ -39,6 +65,10 @@ def start_model(name):
 
         if name == "pheno":
             _MODELS[name] = load_example_model("pheno")
+        elif name == "phenoexp":
+            from pharmpy.model import Model
+
+            _MODELS[name] = Model.parse_model_from_string(PHENOEXP.replace("@DATA@", str(core.REPO / "tests/testdata/nonmem/pheno.dta")))
         else:
             _MODELS[name] = read_model(core.REPO / "tests/testdata/nonmem/models/mox2.mod")
     return _MODELS[name]
@@ -83,6 +113,15 @@ def cov_stats(model, c):
 
 # ----------------------------------------------------------------------------- action executors
 # each returns (model_after, event_fields)
+
+
+# per corpus model: probe values that keep hand-written exponentials inside Q (EXP(theta*(WGT - 1.3)) needs an integer)
+MODEL_OVER = {"phenoexp": {"WGT": Fraction(23, 10), "CLWGT_EXP": 2}}
+_BASE_OVER: dict = {}
+
+
+def _be(models, salt=0, etas="small", eps="zero", over=None):
+    return P.base_env(models, salt, etas, eps, {**_BASE_OVER, **(over or {})})
 
 
 class Ctx:
@@ -130,11 +169,11 @@ def do_addcov(m1, act, cx):
     over = dict(zip(new, th))
     pts = []
     for cv in cvals[:14]:
-        env = P.base_env([m1, m2], cx.salt, "small", "zero", {**over, c: cv})
+        env = _be([m1, m2], cx.salt, "small", "zero", {**over, c: cv})
         v1, _ = P.run(m1, env)
         v2, _ = P.run(m2, env)
         pts.append({"c": qj(cv), "th": [qj(t) for t in th], "b": qj(v1.get(p)), "a": qj(v2.get(p))})
-    env = P.base_env([m1, m2], cx.salt + 1, "small", "zero", over)
+    env = _be([m1, m2], cx.salt + 1, "small", "zero", over)
     return m2, {"effect": eff, "op": op, "stat": stat, "pts": pts, "frame": _frame(m1, m2, env, {p}),
                 "thetas": new}
 
@@ -156,10 +195,10 @@ def do_rmcov(m1, act, cx):
     for salt in (cx.salt, cx.salt + 1):
         a = []
         for x in (x1, x2):
-            v2, _ = P.run(m2, P.base_env([m1, m2], salt, "small", "zero", {c: x}))
+            v2, _ = P.run(m2, _be([m1, m2], salt, "small", "zero", {c: x}))
             a.append(qj(v2.get(p)))
         indep.append(a)
-    env = P.base_env([m1, m2], cx.salt, "small", "zero")
+    env = _be([m1, m2], cx.salt, "small", "zero")
     return m2, {"indep": indep, "frame": _frame(m1, m2, env, {p})}
 
 
@@ -171,7 +210,7 @@ def do_addiiv(m1, act, cx):
     new = [n for n in _new_rvs(m1, m2)]
     eta = new[0]
     over = {}
-    env0 = P.base_env([m1, m2], cx.salt, "small", "zero")
+    env0 = _be([m1, m2], cx.salt, "small", "zero")
     if form == "re_log":
         # the rescaled logit needs a typical value in (0, 1); 2/3 and 4/5 give log2(P/(1-P)) = 1, 2
         r = P.retarget(m1, env0, p, Fraction(*cx.rng.choice([(2, 3), (4, 5)])))
@@ -179,7 +218,7 @@ def do_addiiv(m1, act, cx):
             over = r[0]
     pts = []
     for e in (0, 1, -1, 2):
-        env = P.base_env([m1, m2], cx.salt, "small", "zero", {**over, eta: e})
+        env = _be([m1, m2], cx.salt, "small", "zero", {**over, eta: e})
         v1, _ = P.run(m1, env)
         v2, _ = P.run(m2, env)
         pts.append({"eta": qj(Q(e)), "b": qj(v1.get(p)), "a": qj(v2.get(p))})
@@ -194,7 +233,7 @@ def do_rmiiv(m1, act, cx):
     m2 = remove_iiv(m1, p)          # documented input form: the name of the individual parameter
     pts, indep = [], []
     for salt in (cx.salt, cx.salt + 2):
-        env = P.base_env([m1, m2], salt, "small", "zero")
+        env = _be([m1, m2], salt, "small", "zero")
         v0, _ = P.run(m1, {**env, **{e: ZERO for e in etas}})
         v2, _ = P.run(m2, env)
         pts.append({"b0": qj(v0.get(p)), "a": qj(v2.get(p))})
@@ -202,7 +241,7 @@ def do_rmiiv(m1, act, cx):
         va, _ = P.run(m2, {**env, **{e: ONE for e in etas}})
         vb, _ = P.run(m2, {**env, **{e: Q(-1) for e in etas}})
         indep.append([qj(va.get(p)), qj(vb.get(p))])
-    env = P.base_env([m1, m2], cx.salt, "small", "zero")
+    env = _be([m1, m2], cx.salt, "small", "zero")
     ev = {"pts": pts, "indep": indep, "frame": _frame(m1, m2, env, {p} | set(etas))}
     if _etas_of(m2, p):
         # nothing was removed (judged above); continue the history with the eta names so that later steps are meaningful
@@ -235,14 +274,14 @@ def do_addiov(m1, act, cx):
         for e in (1, -1):
             for kset in (kvals, [ZERO] * len(new)):
                 over = {occ: lev, eta_p: e, **dict(zip(new, kset))}
-                env = P.base_env([m1, m2], cx.salt, "small", "zero", over)
+                env = _be([m1, m2], cx.salt, "small", "zero", over)
                 bt = []
                 for x in range(-2, len(new) + 4):
                     vb, _ = P.run(m1, {**env, eta_p: Q(x)})
                     bt.append([qj(Q(x)), qj(vb.get(p))])
                 v2, _ = P.run(m2, env)
                 pts.append({"lev": li + 1, "eta": qj(Q(e)), "kaps": [qj(k) for k in kset], "a": qj(v2.get(p)), "bt": bt})
-    env = P.base_env([m1, m2], cx.salt, "small", "zero", {k: ZERO for k in new})
+    env = _be([m1, m2], cx.salt, "small", "zero", {k: ZERO for k in new})
     return m2, {"pts": pts, "frame": _frame(m1, m2, env, {p, eta_p}), "new_etas": new, "_problem": problem}
 
 
@@ -252,7 +291,7 @@ def do_rmiov(m1, act, cx):
     iov = list(m1.random_variables.iov.names)
     m2 = remove_iov(m1)
     pts = []
-    env = P.base_env([m1, m2], cx.salt, "small", "zero")
+    env = _be([m1, m2], cx.salt, "small", "zero")
     v0, _ = P.run(m1, {**env, **{e: ZERO for e in iov}})
     v2, _ = P.run(m2, env)
     for n in v2:
@@ -273,16 +312,16 @@ def do_transform(m1, act, cx):
     lam = Q(cx.rng.choice([2, 3])) if tr != "tdist" else Q(cx.rng.choice([3, 4]))
     pts = []
     for e in (0, 1, -1, 2):
-        env = P.base_env([m1, m2], cx.salt, "small", "zero", {eta_p: e, **{n: lam for n in new}})
+        env = _be([m1, m2], cx.salt, "small", "zero", {eta_p: e, **{n: lam for n in new}})
         v1, _ = P.run(m1, env)
         v2, _ = P.run(m2, env)
         pts.append({"eta": qj(Q(e)), "lam": qj(lam), "t": qj(v2.get(tvar)), "b": qj(v1.get(p)), "a": qj(v2.get(p))})
     # fractional lambda: only the neutral point is in Q
-    env = P.base_env([m1, m2], cx.salt, "small", "zero", {eta_p: 0})
+    env = _be([m1, m2], cx.salt, "small", "zero", {eta_p: 0})
     v1, _ = P.run(m1, env)
     v2, _ = P.run(m2, env)
     pts.append({"eta": qj(ZERO), "lam": qj(env.get(new[0]) if new else None), "t": qj(v2.get(tvar)), "b": qj(v1.get(p)), "a": qj(v2.get(p))})
-    env = P.base_env([m1, m2], cx.salt, "small", "zero", {n: lam for n in new})
+    env = _be([m1, m2], cx.salt, "small", "zero", {n: lam for n in new})
     return m2, {"tr": tr, "pts": pts, "frame": _frame(m1, m2, env, {eta_p})}
 
 
@@ -295,22 +334,22 @@ def do_allometry(m1, act, cx):
     new = _new_params(m1, m2)
     targets = [n[len("ALLO_"):] for n in new]
     pts = []
-    scaled = targets if targets else [p for p in ("CL", "VC") if p in P.assigned_names(m1)]
+    scaled = targets if targets else [p for p in ("CL", "VC", "V") if p in P.assigned_names(m1)]
     for p in scaled:
         tname = "ALLO_" + p
         for x in (Q(z), Q(2 * z), Q(Fraction(z, 2)), Q(3 * z)):
             for t in (1, 2, -1):
                 over = {var: x, **({tname: t} if tname in new else {})}
-                env = P.base_env([m1, m2], cx.salt, "small", "zero", over)
+                env = _be([m1, m2], cx.salt, "small", "zero", over)
                 v1, _ = P.run(m1, env)
                 v2, _ = P.run(m2, env)
                 pts.append({"p": p, "x": qj(x), "z": qj(Q(z)), "t": qj(Q(t)), "b": qj(v1.get(p)), "a": qj(v2.get(p))})
         # the exponent at its own (fractional) probe value: only X = Z is in Q
-        env = P.base_env([m1, m2], cx.salt, "small", "zero", {var: Q(z)})
+        env = _be([m1, m2], cx.salt, "small", "zero", {var: Q(z)})
         v1, _ = P.run(m1, env)
         v2, _ = P.run(m2, env)
         pts.append({"p": p, "x": qj(Q(z)), "z": qj(Q(z)), "t": qj(env.get(tname)), "b": qj(v1.get(p)), "a": qj(v2.get(p))})
-    env = P.base_env([m1, m2], cx.salt, "small", "zero", {var: Q(3 * z), **{n: 2 for n in new}})
+    env = _be([m1, m2], cx.salt, "small", "zero", {var: Q(3 * z), **{n: 2 for n in new}})
     return m2, {"pts": pts, "frame": _frame(m1, m2, env, set(scaled)), "targets": targets}
 
 
@@ -351,7 +390,7 @@ def do_seterr(m1, act, cx):
     m2 = fn(m1, data_trans="log(Y)") if trans == "log" else fn(m1)
     y = _yname(m1)
     e1, e2 = _eps_roles(m2, kind)
-    env = P.base_env([m1, m2], cx.salt, "small", "zero")
+    env = _be([m1, m2], cx.salt, "small", "zero")
     amounts = None
     if trans == "log":
         # LOG is decided by TLC for powers of two only: scale the amount so that the prediction is 2, 4 or 8
@@ -379,11 +418,11 @@ def do_rmerr(m1, act, cx):
     y = _yname(m1)
     pts = []
     for salt in (cx.salt, cx.salt + 1):
-        env = P.base_env([m1, m2], salt, "small", "small")
+        env = _be([m1, m2], salt, "small", "small")
         f = _y_at(m1, env, None, {n: 0 for n in _eps_names(m1)}).get(y)
         v2, _ = P.run(m2, env)
         pts.append({"f": qj(f), "a": qj(v2.get(y))})
-    env = P.base_env([m1, m2], cx.salt, "small", "zero")
+    env = _be([m1, m2], cx.salt, "small", "zero")
     v1, _ = P.run(m1, env)
     v2, _ = P.run(m2, env)
     return m2, {"pts": pts, "frame": P.frame_pairs(v1, v2, {y})}
@@ -410,14 +449,14 @@ def do_power(m1, act, cx):
                 over[new[order[e1]]] = th1
             if e2 is not None and order[e2] < len(new):
                 over[new[order[e2]]] = th2
-            env = P.base_env([m1, m2], cx.salt, "small", "zero", over)
+            env = _be([m1, m2], cx.salt, "small", "zero", over)
             zero = {n: 0 for n in eps}
             f = _y_at(m1, env, None, zero).get(y)
             yb = _y_at(m1, env, None, {**zero, e1: a, e2: b}).get(y)
             ya = _y_at(m2, env, None, {**zero, e1: a, e2: b}).get(y)
             pts.append({"e1": qj(Q(a)), "e2": qj(Q(b)), "th1": qj(Q(th1)), "th2": qj(Q(th2 if e2 else 0)), "f": qj(f),
                         "yb": qj(yb), "a": qj(ya), "nref": (th1, th2) == neutral})
-    env = P.base_env([m1, m2], cx.salt, "small", "zero")
+    env = _be([m1, m2], cx.salt, "small", "zero")
     v1, _ = P.run(m1, env)
     v2, _ = P.run(m2, env)
     return m2, {"pts": pts, "frame": P.frame_pairs(v1, v2, {y}), "base": kind}
@@ -433,13 +472,13 @@ def do_iivruv(m1, act, cx):
     pts = []
     for eta in (0, 1, -1):
         for sgn in (1, -1):
-            env = P.base_env([m1, m2], cx.salt, "small", "zero", {n: eta for n in new})
+            env = _be([m1, m2], cx.salt, "small", "zero", {n: eta for n in new})
             f = _y_at(m1, env, None, {n: 0 for n in eps}).get(y)
             eo = {n: sgn * (i + 1) for i, n in enumerate(eps)}
             yb = _y_at(m1, env, None, eo).get(y)
             ya = _y_at(m2, env, None, eo).get(y)
             pts.append({"eta": qj(Q(eta)), "f": qj(f), "yb": qj(yb), "a": qj(ya)})
-    env = P.base_env([m1, m2], cx.salt, "small", "zero")
+    env = _be([m1, m2], cx.salt, "small", "zero")
     v1, _ = P.run(m1, env)
     v2, _ = P.run(m2, env)
     return m2, {"pts": pts, "frame": P.frame_pairs(v1, v2, {y})}
@@ -457,13 +496,13 @@ def do_timevar(m1, act, cx):
     pts = []
     for t in (cut - 1, cut, cut + 2):
         for th in (1, 3):
-            env = P.base_env([m1, m2], cx.salt, "small", "zero", {idv: t, **{n: th for n in new}})
+            env = _be([m1, m2], cx.salt, "small", "zero", {idv: t, **{n: th for n in new}})
             f = _y_at(m1, env, None, {n: 0 for n in eps}).get(y)
             eo = {n: (i + 1) for i, n in enumerate(eps)}
             yb = _y_at(m1, env, None, eo).get(y)
             ya = _y_at(m2, env, None, eo).get(y)
             pts.append({"t": qj(Q(t)), "cut": qj(Q(cut)), "th": qj(Q(th)), "f": qj(f), "yb": qj(yb), "a": qj(ya)})
-    env = P.base_env([m1, m2], cx.salt, "small", "zero", {idv: cut + 2})
+    env = _be([m1, m2], cx.salt, "small", "zero", {idv: cut + 2})
     v1, _ = P.run(m1, env)
     v2, _ = P.run(m2, env)
     return m2, {"pts": pts, "frame": P.frame_pairs(v1, v2, {y})}
@@ -477,10 +516,10 @@ def do_weighted(m1, act, cx):
     eps = _eps_names(m1)
     pts = []
     for a in (-1, 0, 1, 2):
-        env = P.base_env([m1, m2], cx.salt, "small", "zero")
+        env = _be([m1, m2], cx.salt, "small", "zero")
         eo = {n: a for n in eps}
         pts.append({"yb": qj(_y_at(m1, env, None, eo).get(y)), "a": qj(_y_at(m2, env, None, {n: a for n in _eps_names(m2)}).get(y))})
-    env = P.base_env([m1, m2], cx.salt, "small", "zero")
+    env = _be([m1, m2], cx.salt, "small", "zero")
     v1, _ = P.run(m1, env)
     v2, _ = P.run(m2, env)
     return m2, {"pts": pts, "frame": P.frame_pairs(v1, v2, {y, "W"})}
@@ -510,14 +549,14 @@ def _abs_obs(model, env):
 def _do_abs(m1, m2, cx):
     obs, keep = [], []
     for salt in (cx.salt, cx.salt + 1):
-        env = P.base_env([m1, m2], salt, "small", "zero")
+        env = _be([m1, m2], salt, "small", "zero")
         o1, v1 = _abs_obs(m1, env)
         o2, v2 = _abs_obs(m2, env)
         obs.append(o2)
         for k in ("mat", "mdt"):
             if P.is_val(o1[k]) and P.is_val(o2[k]):
                 keep.append([o1[k], o2[k]])
-    env = P.base_env([m1, m2], cx.salt, "small", "zero")
+    env = _be([m1, m2], cx.salt, "small", "zero")
     v1, _ = P.run(m1, env)
     v2, _ = P.run(m2, env)
     # the disposition parameters and everything before the ODE system that survives is unchanged
@@ -542,7 +581,18 @@ def do_transit(m1, act, cx):
     return _do_abs(m1, set_transit_compartments(m1, int(act["x"])), cx)
 
 
+def do_reread(m1, act, cx):
+    """write the model code and read it back (a generator step: C02 judges the round trip)"""
+    from pharmpy.modeling import read_model_from_string
+
+    m2 = read_model_from_string(m1.code)
+    if m2.dataset is None and m1.dataset is not None:
+        m2 = m2.replace(dataset=m1.dataset)
+    return m2, {}
+
+
 ACTIONS = {
+    "reread": do_reread,
     "addcov": do_addcov, "rmcov": do_rmcov, "allometry": do_allometry, "addiiv": do_addiiv, "rmiiv": do_rmiiv,
     "addiov": do_addiov, "rmiov": do_rmiov, "transform": do_transform, "seterr": do_seterr, "rmerr": do_rmerr,
     "power": do_power, "iivruv": do_iivruv, "timevar": do_timevar, "weighted": do_weighted, "abs": do_abs,
@@ -568,7 +618,7 @@ def _flat(model, env):
 def undo_pairs(m0, m2, salt):
     out = []
     for s in (salt, salt + 3):
-        env = P.base_env([m0, m2], s, "small", "small")
+        env = _be([m0, m2], s, "small", "small")
         f0, f2 = _flat(m0, env), _flat(m2, env)
         for k in sorted(set(f0) | set(f2)):
             if k.startswith("v:") and (k not in f0 or k not in f2):
@@ -605,6 +655,8 @@ def exec_history(arg):
     case, seed = arg
     cx = Ctx(seed)
     models = [start_model(case["model"])]
+    _BASE_OVER.clear()
+    _BASE_OVER.update(MODEL_OVER.get(case["model"], {}))
     events, problems = [], []
     for i, act in enumerate(case["hist"]):
         m1 = models[-1]
@@ -673,10 +725,11 @@ def tlc_explore(tier, seed, v: core.Verdict):
     """exhaustive exploration of the machine: design theorems + the histories (cases)"""
     tmp = core.scratch("c09cfg")
     runs = [("all2", ["pheno", "mox2"], 2, ["cov", "eta", "err", "abs"]),
-            ("eta3", ["pheno", "mox2"], 3, ["eta"]),
+            ("eta3", ["pheno", "mox2", "phenoexp"], 3, ["eta"]),
+            ("abs3", ["pheno", "mox2"], 3, ["abs"]),
             ("err3", ["pheno"], 3, ["err"])]
     if tier == "thorough":
-        runs += [("cov3", ["pheno"], 3, ["cov"]), ("abs3", ["pheno", "mox2"], 3, ["abs", "err"]),
+        runs += [("cov3", ["pheno"], 3, ["cov"]), ("abserr3", ["pheno", "mox2"], 3, ["abs", "err"]), ("exp2", ["phenoexp"], 2, ["cov", "eta", "err"]),
                  ("sim4", ["pheno", "mox2"], 4, ["cov", "eta", "err", "abs"])]
     cases, results = [], {}
 
@@ -776,7 +829,27 @@ def tlc_validate(traces, v: core.Verdict):
 # ----------------------------------------------------------------------------- selection of histories
 
 
+def _must(c):
+    """histories that are always executed: Remove . Add on the parameter whose definition already carries an
+    exponential (every eta form), and every change of the number of transit compartments n1 -> n2 with n1, n2 > 0,
+    directly and through a write / read round trip"""
+    h = c["hist"]
+    ks = [a["k"] for a in h]
+    if c["model"] == "phenoexp" and ks in (["addiiv", "rmiiv"], ["addiiv", "rmiiv", "addiiv"]) and h[0]["p"] == "CL" and h[1]["p"] == "CL":
+        return len(h) == 2 or h[2]["p"] == "CL"
+    if ks in (["transit", "transit"], ["transit", "reread", "transit"], ["reread", "transit", "transit"]):
+        ns = [a["x"] for a in h if a["k"] == "transit"]
+        return "0" not in ns and ns[0] != ns[1]
+    return False
+
+
 def select(cases, tier, seed):
+    must = [c for c in cases if _must(c)]
+    cases = [c for c in cases if not _must(c)]
+    return must + _select(cases, tier, seed)
+
+
+def _select(cases, tier, seed):
     rng = random.Random(seed)
     by_len = {}
     for c in cases:
@@ -839,7 +912,7 @@ def main(tier: str, seed: int) -> int:
     core.use_repo()
     import pharmpy.modeling  # noqa: F401
 
-    for n in ("pheno", "mox2"):
+    for n in ("pheno", "mox2", "phenoexp"):
         start_model(n)
     _warm_up()
     th.join()
@@ -949,7 +1022,7 @@ def _float_check(case, seed, i, field):
         for pt in ev["pts"]:
             cv = Fraction(*pt["c"])
             th = [float(Fraction(*t)) for t in pt["th"]]
-            env = P.base_env([m1, m2], cx.salt, "small", "zero", {**dict(zip(new, [Fraction(*t) for t in pt["th"]])), c: cv})
+            env = _be([m1, m2], cx.salt, "small", "zero", {**dict(zip(new, [Fraction(*t) for t in pt["th"]])), c: cv})
             ef = P.env_to_float(env)
             b = P.run_float(m1, ef).get(p)
             a_ = P.run_float(m2, ef).get(p)
@@ -981,7 +1054,7 @@ def _float_check(case, seed, i, field):
         return worst < 1e-6
     if field in ("neutral",) and act["k"] == "addiiv":
         eta = ev["eta_name"]
-        env = P.base_env([m1, m2], cx.salt, "small", "zero", {eta: 0})
+        env = _be([m1, m2], cx.salt, "small", "zero", {eta: 0})
         ef = P.env_to_float(env)
         return P.close(P.run_float(m1, ef).get(act["p"]), P.run_float(m2, ef).get(act["p"]))
     return False
